@@ -40,7 +40,7 @@ func genC06(o *hx.Out, tier string) {
 		f.Signature = f.GenerateSignature(good)
 		if bs, err := writeFrame(nil, f); err == nil {
 			cs := one(bs)
-			o.Add("key made from a buffer that is reused afterwards", hx.ReadAll(cs, nil, key, nil), "fread", "-", hx.Hex(orig), hx.ChunksText(cs))
+			o.AddLater("key made from a buffer that is reused afterwards", hx.ReadAllLater(cs, nil, key, nil), "fread", "-", hx.Hex(orig), hx.ChunksText(cs))
 		}
 	}
 	for i := 0; i < nfr; i++ {
@@ -76,7 +76,7 @@ func genC06(o *hx.Out, tier string) {
 		}
 		add := func(class string, b []byte, k *frame.V2Key) {
 			cs := one(b)
-			o.Add(class, hx.ReadAll(cs, rdrw, k, nil), "fread", dn, hx.Hex(k[:]), hx.ChunksText(cs))
+			o.AddLater(class, hx.ReadAllLater(cs, rdrw, k, nil), "fread", dn, hx.Hex(k[:]), hx.ChunksText(cs))
 		}
 		add("signed-valid", bs, key)
 		nbits := len(bs) * 8
